@@ -94,4 +94,14 @@ CHECKS = {
   "note": "Trusted: Coq kernel; CPython Fractions; int(7*val/12) on floats = truncation. Combinations of two tags are not modelled (the second "
           "builder works on a Melody through Melody.set_duration): oracle only.",
  },
+ "C17": {
+  "text": "Theorems in tatum units: applying a grid to a melody lasts exactly the grid, places the melody's notes exactly on the pulse "
+          "positions and takes them in order cyclically (entry j carries note j mod m); the Bjorklund construction yields, for ALL "
+          "1 <= pulses <= steps, exactly `steps` binary entries with exactly `pulses` ones and a pulse on the downbeat (invariant through the "
+          "Euclid recursion, termination proved); maximal evenness (Clough-Douthett) for all steps <= 64 by a kernel sweep - bounded, stated so; "
+          "complement, reversal and circular shift by n then -n are identities for all arrays and all n in Z. FromMelody round trip and the "
+          "signature/tatum arithmetic are evaluated on the implementation by the oracle.",
+  "note": "Trusted: Coq kernel + vm_compute; adapters (tatum units). Evenness beyond 64 steps is only tested (thorough tier: 128). "
+          "apply_to_melody with start/end windows (ScoreRhythm) and expand=False are not modelled.",
+ },
 }
